@@ -141,3 +141,202 @@ theorem add_spec {m : Manager} (seq rpt : Nat) (id tok : Bytes) (draw : Nat) (hi
   · exact ⟨S3, fun _ => Or.inl hseqIn, by simp⟩
 
 end Uquic.Proofs.ConnID
+
+namespace Uquic.Proofs.ConnID
+open Uquic.Model.ConnID
+
+/-- what the callers guarantee (each discharged in /repo): the frame parser rejects Retire Prior To > Sequence Number;
+    the preferred address comes with the transport parameters, before any frame; the server's stateless reset token
+    comes with the transport parameters, once -/
+def OpValid (m : Manager) : Op → Prop
+  | .new seq rpt _ _ _ => rpt ≤ seq
+  | .pref _ _ => m.activeSeq = 0 ∧ m.highestProbing = 0 ∧ m.highestRetired = 0
+  | .setTok _ => m.activeTok = none
+  | _ => True
+
+/-- the sequence number an operation delivers from the peer -/
+def opRcv : Op → Option Nat
+  | .new seq _ _ _ _ => some seq
+  | .pref _ _ => some 1
+  | _ => none
+
+theorem addFrame_state (m : Manager) (seq rpt : Nat) (id tok : Bytes) (draw : Nat) :
+    (m.addFrame seq rpt id tok draw).1 = (m.add seq rpt id tok draw).1 ∧
+    (m.addFrame seq rpt id tok draw).2.1 = (m.add seq rpt id tok draw).2.1 ∧
+    ((m.addFrame seq rpt id tok draw).2.2 ≠ .err .protocolViolation → (m.add seq rpt id tok draw).2.2 ≠ .err .protocolViolation) ∧
+    ((m.add seq rpt id tok draw).2.2 ≠ .panic → (m.addFrame seq rpt id tok draw).2.2 ≠ .panic) := by
+  unfold Manager.addFrame
+  simp only
+  split
+  · rename_i hok
+    split <;> simp [hok]
+  · simp
+
+theorem shouldUpdate_nonempty {m : Manager} (h : m.shouldUpdateConnID = true) : m.queue ≠ [] := by
+  unfold Manager.shouldUpdateConnID at h
+  have hp := maxActive_pos
+  intro hq
+  simp [hq] at h
+  omega
+
+theorem sameCore_step {m m' : Manager} {evs : List Ev} (h : SameCore m m') (hi : Inv m)
+    (hev : ∀ s, Ev.retire s ∉ evs) : StepSpec m evs m' := (SameCore.micro h hi hev).toStep
+
+theorem step_spec {m : Manager} (op : Op) (hi : Inv m) (hv : OpValid m op) :
+    StepSpec m (m.step op).2.1 (m.step op).1 ∧
+    (∀ r, opRcv op = some r → (m.step op).2.2 ≠ .err .protocolViolation →
+        r ∈ inUse (m.step op).1 ∨ Ev.retire r ∈ (m.step op).2.1) := by
+  cases op with
+  | new seq rpt id tok draw =>
+    have A := add_spec seq rpt id tok draw hi hv
+    have F := addFrame_state m seq rpt id tok draw
+    simp only [Manager.step, opRcv]
+    rw [F.1, F.2.1]
+    refine ⟨A.1, ?_⟩
+    intro r hr hne
+    cases hr
+    exact A.2.1 (F.2.2.1 hne)
+  | pref id tok =>
+    simp only [Manager.step, opRcv, Manager.addFromPreferredAddress]
+    obtain ⟨h1, h2, h3⟩ := hv
+    split
+    · rename_i er herr
+      refine ⟨StepSpec.refl hi, ?_⟩
+      intro r hr _; cases hr
+      obtain ⟨x, hx, hxs⟩ := addConnectionID_error herr
+      left; rw [mem_inUse]; right; left; exact ⟨x, hx, hxs⟩
+    · rename_i q hq
+      have hE : Enter m (⟨1, id, tok⟩ : Entry).seq := ⟨by simp only; omega, by simp only; omega, by simp only; omega⟩
+      refine ⟨(insert_micro hi hE hq).toStep, ?_⟩
+      intro r hr _; cases hr
+      obtain ⟨_, _, _, _, _, x, hxq, hxs⟩ := addConnectionID_ok hi.sorted hq
+      left; rw [mem_inUse]; right; left; exact ⟨x, hxq, hxs⟩
+  | get draw =>
+    simp only [Manager.step, opRcv, Manager.get]
+    refine ⟨?_, by simp⟩
+    split
+    · exact StepSpec.refl hi
+    · split
+      · rename_i hsu
+        exact (update_spec draw hi (shouldUpdate_nonempty hsu)).1
+      · exact StepSpec.refl hi
+  | sentPacket =>
+    refine ⟨?_, by simp [opRcv]⟩
+    show StepSpec m [] m.sentPacket
+    exact sameCore_step ⟨rfl, rfl, rfl, rfl, rfl⟩ hi (by simp)
+  | path p =>
+    simp only [Manager.step, opRcv, Manager.getConnIDForPath]
+    refine ⟨?_, by simp⟩
+    split
+    · exact StepSpec.refl hi
+    split
+    · exact StepSpec.refl hi
+    split
+    · exact StepSpec.refl hi
+    · rename_i hl
+      split
+      · exact StepSpec.refl hi
+      · rename_i front rest hq
+        exact (path_micro hi hq hl).toStep
+  | retirePath p =>
+    simp only [Manager.step, opRcv, Manager.retireConnIDForPath]
+    refine ⟨?_, by simp⟩
+    split
+    · exact StepSpec.refl hi
+    split
+    · exact StepSpec.refl hi
+    split
+    · exact StepSpec.refl hi
+    · rename_i e hl
+      exact (retirePath_micro hi hl).toStep
+  | hsDone =>
+    refine ⟨?_, by simp [opRcv]⟩
+    show StepSpec m [] m.setHandshakeComplete
+    exact sameCore_step ⟨rfl, rfl, rfl, rfl, rfl⟩ hi (by simp)
+  | close =>
+    refine ⟨?_, by simp [opRcv]⟩
+    simp only [Manager.step, Manager.close]
+    refine sameCore_step ⟨rfl, rfl, rfl, rfl, rfl⟩ hi ?_
+    intro s hs
+    rcases List.mem_append.mp hs with h | h
+    · exact retire_not_mem_rmTokOpt _ _ h
+    · simp at h
+  | setTok t =>
+    refine ⟨?_, by simp [opRcv]⟩
+    simp only [Manager.step, Manager.setStatelessResetToken]
+    split
+    · exact StepSpec.refl hi
+    split
+    · exact StepSpec.refl hi
+    · exact sameCore_step ⟨rfl, rfl, rfl, rfl, rfl⟩ hi (by simp)
+  | changeInitial id =>
+    refine ⟨?_, by simp [opRcv]⟩
+    simp only [Manager.step, Manager.changeInitialConnID]
+    split
+    · exact StepSpec.refl hi
+    · exact sameCore_step ⟨rfl, rfl, rfl, rfl, rfl⟩ hi (by simp)
+  | setLimit n =>
+    refine ⟨?_, by simp [opRcv]⟩
+    show StepSpec m [] (m.setConnectionIDLimit n)
+    exact sameCore_step ⟨rfl, rfl, rfl, rfl, rfl⟩ hi (by simp)
+
+/-! ### histories -/
+
+/-- states reachable by any history of operations that respects the callers' guarantees -/
+inductive Reach : Manager → Prop
+  | init (dest : Bytes) : Reach (Manager.new dest)
+  | step {m : Manager} (op : Op) : Reach m → OpValid m op → Reach (m.step op).1
+
+theorem inv_new (dest : Bytes) : Inv (Manager.new dest) := by
+  refine ⟨?_, ?_, ?_, ?_, ?_, ?_, ?_, ?_, ?_⟩ <;> simp [Manager.new, SortedQ, pSeqs]
+
+theorem reach_inv {m : Manager} (h : Reach m) : Inv m := by
+  induction h with
+  | init dest => exact inv_new dest
+  | step op _ hv ih => exact (step_spec op ih hv).1.inv
+
+/-- a history all of whose operations respect the callers' guarantees -/
+def ValidRun : Manager → List Op → Prop
+  | _, [] => True
+  | m, op :: ops => OpValid m op ∧ ValidRun (m.step op).1 ops
+
+theorem reach_run {m : Manager} (h : Reach m) : ∀ {ops : List Op}, ValidRun m ops → Reach (m.run ops).1 := by
+  intro ops
+  induction ops generalizing m with
+  | nil => intro _; exact h
+  | cons op ops ih =>
+    intro hv
+    simp only [Manager.run]
+    exact ih (Reach.step op h hv.1) hv.2
+
+/-- once RETIRE_CONNECTION_ID was queued for a sequence number, it is never in use again -/
+theorem retired_stay_out {m : Manager} (hi : Inv m) (R : List Nat) (hR : ∀ s ∈ R, Blocked m s ∧ s ∉ inUse m) :
+    ∀ {ops : List Op}, ValidRun m ops → ∀ s, (s ∈ R ∨ Ev.retire s ∈ (m.run ops).2) → s ∉ inUse (m.run ops).1 := by
+  intro ops
+  induction ops generalizing m R with
+  | nil =>
+    intro _ s hs
+    simp only [Manager.run] at hs ⊢
+    rcases hs with hs | hs
+    · exact (hR s hs).2
+    · simp at hs
+  | cons op ops ih =>
+    intro hv s hs
+    have S := (step_spec op hi hv.1).1
+    simp only [Manager.run] at hs ⊢
+    -- everything retired so far, including this step
+    have hR' : ∀ x ∈ R ++ retiredIn (m.step op).2.1, Blocked (m.step op).1 x ∧ x ∉ inUse (m.step op).1 := by
+      intro x hx
+      rcases List.mem_append.mp hx with hx | hx
+      · have := hR x hx
+        exact ⟨S.mono x this.1, S.stay_out x this.1 this.2⟩
+      · have := S.gone x (mem_retiredIn.mp hx)
+        exact ⟨this.2, this.1⟩
+    apply ih S.inv (R ++ retiredIn (m.step op).2.1) hR' hv.2 s
+    rcases hs with hs | hs
+    · left; exact List.mem_append_left _ hs
+    · rcases List.mem_append.mp hs with hs | hs
+      · left; exact List.mem_append_right _ (mem_retiredIn.mpr hs)
+      · right; exact hs
+
+end Uquic.Proofs.ConnID
